@@ -1226,6 +1226,11 @@ func (gen *Generator) GenerateSyntaxQuote(args []Sexp) error {
 	}
 	arg := args[0]
 
+	// unquoted expressions inside a template are not in tail position
+	oldtail := gen.Tail
+	gen.Tail = false
+	defer func() { gen.Tail = oldtail }()
+
 	// need to handle arrays, since they can have unquotes
 	// in them too.
 	switch aaa := arg.(type) {
